@@ -100,7 +100,7 @@ def run(chk):
     chk.assumptions = list(wc.ASSUMPTIONS) + [
         "`a writer that works` for a documented value is decided on the implementation (encode, finalize, decode with the crate's reader, compare), not by a theorem of this area: the block encoder is abstract here (C01 owns losslessness); the two capacity guards of the core that depend on option values (autocorrelate's assertion, the partition list) are modelled and proved separately",
     ]
-    proof_ok = wc.proof_stage(chk, THEOREMS, e2e_theorems=["C15_exact_fill_succeeds_sample", "C15_exact_fill_succeeds_byte", "C15_exact_fill_succeeds_channel"])
+    proof_ok = wc.proof_stage(chk, THEOREMS, e2e_theorems=["C15_exact_fill_succeeds_sample", "C15_exact_fill_succeeds_byte", "C15_exact_fill_succeeds_channel", "C15_length_contract_byte", "C15_length_contract_channel"])
     runs = []
     for profile in ("release", "debug"):
         r = wc.run_harness(chk, "c15", profile)
